@@ -79,7 +79,7 @@ TIMEOUT_CASE = 300
 
 KINDS = ("PNorm", "KSFunction", "SoftMinMax")
 PARNAME = {"PNorm": "p", "KSFunction": "rho", "SoftMinMax": "alpha"}
-MAGS = (0.5, 1.0, 2.0, 4.0, 8.0, 16.0, 30.0)
+MAGS = (0.5, 1.0, 2.0, 4.0, 8.0, 16.0, 30.0, 48.0, 60.0)
 
 # grids of the exhaustive active-set family
 _LR = (0.0, 0.25, 1 / 3, 0.5, 0.75)
@@ -430,6 +430,7 @@ def _positive_patterns(rng, n):
     out["decimal-ties"] = s * np.round(rng.uniform(0.05, 1.0, n), 1).clip(0.1, None)
     out["log-wide"] = 10.0 ** rng.uniform(-3, 1, n)
     out["large"] = 10.0 ** rng.uniform(0, 3, n)
+    out["very-wide"] = 10.0 ** rng.uniform(-4, 4, n)       # eight decades inside one vector (stresses next to void)
     return out
 
 
@@ -513,6 +514,22 @@ def _case_agg(case, ctx, pym):
                     if _check_bound(rec, ctx, kind, par, x, y, variant + "/" + pname):
                         lo, hi, tol = _interval(kind, par, n, mx, mn)
                         worst_b = max(worst_b, max(lo - y, y - hi, 0.0) / max(abs(lo), abs(hi), 1e-300))
+    # parameter continuation by attribute assignment on an existing module (m.p = ..., m.rho = ...: the pattern of the
+    # library's own tests): the next response obeys the bounds of the *new* parameter
+    x = np.ascontiguousarray(_positive_patterns(rng, n)["distinct"], dtype=float)
+    sx.state = x
+    for ent in mods:
+        kind, par = ent["kind"], ent["par"]
+        newpar = par * float(rng.choice([0.5, 2.0, 3.0]))
+        if not (_in_domain(kind, par, x) and _in_domain(kind, newpar, x)):
+            continue
+        m = ent["plain"]
+        m.response()
+        setattr(m, PARNAME[kind], newpar)
+        m.response()
+        ctx.count("parameter_continuation_checked")
+        _check_bound(rec, ctx, kind, newpar, x, _scalar(m.sig_out[0].state), "plain/after-parameter-reassignment")
+        setattr(m, PARNAME[kind], par)
     _flush_counts(ctx, counts)
     nb = "1-12" if n <= 12 else ("13-40" if n <= 40 else ("41-200" if n <= 200 else ">200"))
     return {"key": f"agg|n={n if n <= 40 else nb}|rep={case['rep'] if n <= 40 else 0}", "nontrivial": n >= 2 and ncmp > 0,
